@@ -1,5 +1,6 @@
 import KsiVerif.Util.DriverMain
 import KsiVerif.Model.Async
+import KsiVerif.Model.PduMac
 /-! Model driver for C13 — protocol in harness/exec_c13.c. -/
 open KsiVerif KsiVerif.Tcp KsiVerif.Async
 
@@ -151,7 +152,26 @@ def handle (inp out : String) : String :=
     let want := s!"{".".intercalate (ps.map fun p => toString p.length)} {toHex ps.flatten}"
     if want == out then s!"ok hrecv:{ps.length}-pieces:{if ps.flatten.length > 255 then "long" else "short"}"
     else s!"specfail hrecv reply-put-together-from-{ps.length}-pieces-is-not-their-concatenation"
-  | ["async", cache, rcvT, sndT, steps] =>
+  | [op, cache, rcvT, sndT, steps] =>
+    if op != "async" && op != "asyncx" then "skip unknown-op" else
+    let ext := op == "asyncx"
+    -- the extending service differs from the signing one in how a service status becomes an error code: the model's
+    -- (aggregator) codes are translated through the statuses this history uses; a history in which that is ambiguous is skipped
+    let codes : List Nat := (steps.splitOn ",").filterMap fun st => match st.splitOn ":" with
+      | ["srv", "status", _, c] => c.toNat? | ["srv", "errpdu", _, c] => c.toNat? | _ => none
+    let table : List (Nat × Nat) := (codes.map fun c => (Async.convertStatus c, PduMac.convExt c)).eraseDups
+    let ambiguous := ext && table.any fun (a, e) => table.any fun (a', e') => a == a' && e != e'
+    if ambiguous then "skip ambiguous-status-set" else
+    let fixTok (t : String) : String :=
+      if !ext then t else
+      match t.splitOn ":" with
+      | [r, h, "5", er, p, w] =>
+        (match er.toNat? with
+         | some a => (match table.find? (·.1 == a) with
+            | some (_, e) => ":".intercalate [r, h, "5", toString e, p, w]
+            | none => t)
+         | none => t)
+      | _ => t
     match cache.toNat?, rcvT.toNat?, sndT.toNat? with
     | some c, some r, some sn =>
       let ow := words out
@@ -162,7 +182,7 @@ def handle (inp out : String) : String :=
       else
       let sm0 : Sim := { a := Async.init c, implS := ow.filter (·.startsWith "S") }
       let sm := (steps.splitOn ",").foldl (stepSim r sn) sm0
-      let ms := if sm.toks.isEmpty then "-" else " ".intercalate sm.toks
+      let ms := if sm.toks.isEmpty then "-" else " ".intercalate (sm.toks.map fixTok)
       -- oracle on the implementation's own output (independent of the model's counters):
       --  * a handle is never handed back twice, only accepted handles are handed back
       --  * 'cache full' exactly when outstanding = configured size
@@ -194,6 +214,17 @@ def handle (inp out : String) : String :=
       -- a handle comes back with a response only if the scripted server sent a valid status-0 reply
       -- bearing that request's identifier, and identifiers are not reused (they may legitimately
       -- repeat only after 255 generations, so the check is limited to the first 250 submissions)
+      -- a request fails with a service-status error only if a non-zero status was sent for that very request, or an error PDU arrived
+      let stFor : List String := (steps.splitOn ",").filterMap fun st => match st.splitOn ":" with
+        | ["srv", "status", k, _] => some k | _ => none
+      let anyErrPdu := (steps.splitOn ",").any fun st => st.startsWith "srv:errpdu:"
+      let statusOwn : Option String := ow.findSome? fun t => match t.splitOn ":" with
+        | [_, idx, "5", er, _, _] =>
+          (match er.toNat? with
+           | some e => if 0x400 ≤ e && e < 0x600 && !anyErrPdu && !(stFor.contains idx) then
+               some s!"request-{idx}-failed-with-service-error-{e}-although-no-error-status-was-sent-for-it" else none
+           | none => none)
+        | _ => none
       let rec own (steps toks : List String) (ids : List Nat) (okIds : List Nat) : Option String :=
         match steps with
         | [] => none
@@ -227,7 +258,16 @@ def handle (inp out : String) : String :=
       let spec := match chk c ow 0 [] with
         | some w => some w
         | none => own (steps.splitOn ",") ow [] []
-      let cls := s!"async:c{min c 9}:a{min sm.added 9}:r{min sm.returned.length 9}"
+      -- an error status of the extending service is reported with the extender's meaning of the code
+      let extSpec : Option String := if !ext then none else
+        ow.findSome? fun t => match t.splitOn ":" with
+          | [_, _, "5", er, _, _] =>
+            (match er.toNat? with
+             | some e => if 0x400 ≤ e && e < 0x600 && !(codes.any fun c => PduMac.convExt c == e) then some s!"request-failed-with-error-{e}-which-is-not-the-extender's-meaning-of-any-status-the-server-sent" else none
+             | none => none)
+          | _ => none
+      let spec := (spec.orElse fun _ => extSpec).orElse fun _ => statusOwn
+      let cls := s!"{op}:c{min c 9}:a{min sm.added 9}:r{min sm.returned.length 9}"
       match spec with
       | some why => s!"specfail {cls} {why}"
       | none => if ms == out then s!"ok {cls}" else s!"diff {cls} model={ms}"
